@@ -53,7 +53,7 @@ struct Val
 		case NUL: out += "null"; break;
 		case BOOL: out += b ? "true" : "false"; break;
 		case INT: out += std::to_string(i); break;
-		case DBL: { char buf[40]; snprintf(buf, sizeof buf, "%.6g", d); out += buf; } break;
+		case DBL: { char buf[40]; snprintf(buf, sizeof buf, "%.12g", d); out += buf; } break;
 		case STR: esc(out, s); break;
 		case ARR: out += '['; for (size_t k = 0; k < a.size(); ++k) { if (k) out += ','; a[k].dump(out); } out += ']'; break;
 		case OBJ: out += '{'; for (size_t k = 0; k < o.size(); ++k) { if (k) out += ','; esc(out, o[k].first); out += ':'; o[k].second.dump(out); } out += '}'; break;
